@@ -198,6 +198,46 @@ func MultiplexCloseTags(r *rand.Rand, n int) Multiplex {
 	return m
 }
 
+// MultiplexSharedPrimer: two markers amplified with the same forward primer and two reverse primers
+// (a CSV sheet), and reads of both. Which reads can be assigned is the business of C12; here only
+// "the same answer every time" is at stake.
+func MultiplexSharedPrimer(r *rand.Rand, n int) Multiplex {
+	m := Multiplex{Fwd: "ttagataccccactatgc", Rev: "tagaacaggctcctctag"}
+	rev2 := "ggtaccacgattcagacc"
+	tags := []string{"aattaac", "gaagtag", "gaatatc", "gcctcct"}
+	var sb strings.Builder
+	sb.WriteString("experiment,sample,sample_tag,forward_primer,reverse_primer\n")
+	for i, t := range tags {
+		rv := m.Rev
+		if i >= 2 {
+			rv = rev2
+		}
+		fmt.Fprintf(&sb, "exp1,sample%02d,%s,%s,%s\n", i, t, m.Fwd, rv)
+	}
+	m.Sheet = []byte(sb.String())
+	var rd strings.Builder
+	for i := 0; i < n; i++ {
+		k := r.Intn(4)
+		rv := m.Rev
+		if k >= 2 {
+			rv = rev2
+		}
+		t := []byte(tags[k])
+		var seq []byte
+		seq = append(seq, t...)
+		seq = append(seq, m.Fwd...)
+		seq = append(seq, DNA(r, 30+r.Intn(60))...)
+		seq = append(seq, rc([]byte(rv))...)
+		seq = append(seq, rc(t)...)
+		if r.Intn(2) == 0 {
+			seq = rc(seq)
+		}
+		fmt.Fprintf(&rd, "@read%05d\n%s\n+\n%s\n", i, seq, qualLine(r, len(seq)))
+	}
+	m.Reads = []byte(rd.String())
+	return m
+}
+
 // PCRTemplates renders n templates (FASTA), most of them with one planted amplicon for the returned primers.
 func PCRTemplates(r *rand.Rand, n int) (fasta []byte, fwd, rev string) {
 	fwd, rev = "ggtaccacgattcagac", "ccatgactgatcgtaag"
